@@ -22,6 +22,10 @@ TARGETS = [
         ("VelocityControl", "is_unlimited", "C12", "C12_fn_is_unlimited"),
         ("VelocityControl", "velocity", "C12", "C12_fn_velocity"),
         ("VelocityControl", "insert", "C12", "C12_fn_insert"),
+        ("VelocityControl", "get_state", "C12", "C12_fn_get_state"),
+        ("VelocityControl", "new_with_intervals", "C12", "C12_fn_new_with_intervals"),
+        ("VelocityControl", "new_unlimited", "C12", "C12_fn_new_unlimited"),
+        ("VelocityControl", "new", "C12", "C12_fn_new"),
     ]),
     dict(area="Simple", rel="vls-core/src/policy/simple_validator.rs", consts=["vls-core/src/policy/mod.rs"], externals={}, fns=[
         ("SimpleValidator", "validate_delay", "C05", "C05_fn_validate_delay"),
@@ -34,7 +38,7 @@ TARGETS = [
          structs=["vls-core/src/tx/tx.rs"], fns=[
         ("EnforcementState", "minimum_to_holder_value", "C07", "C07_fn_minimum_to_holder_value"),
         ("EnforcementState", "minimum_to_counterparty_value", "C07", "C07_fn_minimum_to_counterparty_value"),
-        ("", "min_opt", "C06", None, "snippet"),
+        ("", "min_opt", "C06", "C06_fn_min_opt", "snippet"),
     ]),
     dict(area="Kvv", rel="vls-persist/src/kvv/memory.rs", consts=[], externals={}, fns=[
         ("MemoryKVVStore", "put_with_version", "C16", "C16_fn_put_with_version"),
@@ -56,6 +60,69 @@ TARGETS = [
         ("EnforcementState", "get_previous_counterparty_point", "C03", "C03_fn_get_previous_counterparty_point"),
         ("EnforcementState", "get_previous_counterparty_commit_info", "C03", "C03_fn_get_previous_counterparty_commit_info"),
         ("EnforcementState", "set_next_counterparty_revoke_num", "C03", "C03_fn_set_next_counterparty_revoke_num"),
+        # default methods of `trait Validator` (the guards in front of the setters; `&mut EnforcementState` parameter);
+        # "filter": the only external is `policy_filter_err`, the `fngen` driver instantiates it with a constant
+        # filter given as the first argument (1 = every tag stays an error, 0 = every tag is demoted to a warning)
+        ("Validator", "set_next_holder_commit_num", "C01", "C01_fn_validator_set_next_holder_commit_num", "filter"),
+        ("Validator", "get_current_holder_commitment_info", "C02", "C02_fn_get_current_holder_commitment_info", "filter"),
+        ("Validator", "set_next_counterparty_commit_num", "C03", "C03_fn_validator_set_next_counterparty_commit_num", "filter"),
+        ("Validator", "set_next_counterparty_revoke_num", "C03", "C03_fn_validator_set_next_counterparty_revoke_num", "filter"),
+    ]),
+    dict(area="SimpleState", rel="vls-core/src/policy/simple_validator.rs", consts=["vls-core/src/policy/mod.rs"],
+         structs=["vls-core/src/policy/validator.rs"],
+         # logging-only macros of the file (dropped like debug!; `scoped_debug_return!` yields a guard object that only
+         # logs when dropped: value `()`, the assignment `*debug_on_return = false` is dropped with it)
+         log_macros=["dbgvals", "policy_log", "scoped_debug_return"],
+         # the content rules `validate_commitment_tx` are an external `… -> Rs.M Unit` (C05's subject); the selectors of
+         # EnforcementState are externals that may overflow (instantiated with the generated Gen.FnEnforce bodies in the
+         # tying theorems); the HTLC deltas are only logged; secp is opaque
+         externals={
+             "self.validate_commitment_tx": {"params": ["EnforcementState", "u64", "PublicKey", "ChannelSetup", "ChainState",
+                                                        "CommitmentInfo2"], "ret": "Result<(), ValidationError>", "monadic": True},
+             "CommitmentInfo2.delta_offered_htlcs": {"params": ["CommitmentInfo2"], "ret": "(HtlcDelta, HtlcDelta)"},
+             "CommitmentInfo2.delta_received_htlcs": {"params": ["CommitmentInfo2"], "ret": "(HtlcDelta, HtlcDelta)"},
+             "EnforcementState.get_previous_counterparty_point": {"params": ["u64"], "ret": "Option<PublicKey>", "partial": True},
+             "EnforcementState.get_previous_counterparty_commit_info": {"params": ["u64"], "ret": "Option<CommitmentInfo2>",
+                                                                        "partial": True},
+             "Secp256k1::signing_only": {"params": [], "ret": "SecpCtx"},
+             "PublicKey::from_secret_key": {"params": ["SecpCtx", "SecretKey"], "ret": "PublicKey"},
+         }, fns=[
+        ("SimpleValidator", "validate_holder_commitment_tx", "C02", "C02_fn_validate_holder_commitment_tx"),
+        ("SimpleValidator", "validate_counterparty_commitment_tx", "C03", "C03_fn_validate_counterparty_commitment_tx"),
+        ("SimpleValidator", "validate_counterparty_revocation", "C03", "C03_fn_validate_counterparty_revocation"),
+    ]),
+    dict(area="Secrets", rel="vls-core/src/policy/validator.rs", consts=[],
+         # the compact BOLT-3 store of counterparty revocation secrets (copied from LDK); the hash is a declared external
+         externals={
+             "Sha256::hash": {"params": ["Vec<u8>"], "ret": "Sha256Hash"},
+             "Sha256Hash.to_byte_array": {"params": [], "ret": "Vec<u8>"},
+         }, fns=[
+        ("CounterpartyCommitmentSecrets", "new", "C03", "C03_fn_secrets_new"),
+        ("CounterpartyCommitmentSecrets", "place_secret", "C03", "C03_fn_place_secret"),
+        ("CounterpartyCommitmentSecrets", "get_min_seen_secret", "C03", "C03_fn_get_min_seen_secret"),
+        ("CounterpartyCommitmentSecrets", "derive_secret", "C03", "C03_fn_derive_secret"),
+        ("CounterpartyCommitmentSecrets", "provide_secret", "C03", "C03_fn_provide_secret"),
+        ("CounterpartyCommitmentSecrets", "get_secret", "C03", "C03_fn_get_secret"),
+    ]),
+    dict(area="Channel", rel="vls-core/src/channel.rs", consts=["vls-core/src/util/mod.rs"],
+         structs=["vls-core/src/policy/validator.rs"],
+         # declared externals (trusted boundary, explicit parameters of the generated definitions): key derivation of the
+         # LDK signer and secp parsing; `self.validator()` is only the receiver of `policy_err!` (its policy filter is the
+         # external `policy_filter_err`); a declared `Result` is read as `Option` (`Err` = `none`)
+         externals={
+             "self.validator": {"params": [], "ret": "()", "drop": True},
+             "self.get_per_commitment_point_unchecked": {"params": ["u64"], "ret": "PublicKey"},
+             "InMemorySigner.release_commitment_secret": {"params": ["u64"], "ret": "Result<Secret32, ()>"},
+             "SecretKey::from_slice": {"params": ["Secret32"], "ret": "Result<SecretKey, ()>"},
+         }, fns=[
+        # `impl ChannelBase for ChannelStub`: a channel that is not set up never discloses a secret (C01)
+        ("ChannelStub", "get_per_commitment_secret", "C01", "C01_fn_stub_get_per_commitment_secret"),
+        ("ChannelStub", "get_per_commitment_secret_or_none", "C01", "C01_fn_stub_get_per_commitment_secret_or_none"),
+        # `impl ChannelBase for Channel`: the release guard `n + 2 <= next_holder_commit_num` and the point guard
+        ("Channel", "get_per_commitment_point", "C01", "C01_fn_get_per_commitment_point"),
+        ("Channel", "get_per_commitment_secret", "C01", "C01_fn_get_per_commitment_secret"),
+        ("Channel", "get_per_commitment_secret_or_none", "C01", "C01_fn_get_per_commitment_secret_or_none"),
+        ("Channel", "release_commitment_secret", "C01", "C01_fn_release_commitment_secret"),
     ]),
     dict(area="Monitor", rel="vls-core/src/monitor.rs", consts=[], externals={}, fns=[
         ("State", "depth_of", "C15", "C15_fn_depth_of"),
@@ -329,6 +396,7 @@ def load_targets():
             d["consts"], d["structs"] = list(d["consts"]), list(d["structs"])
             d["externals"], d["foreign_structs"] = dict(d["externals"]), dict(d["foreign_structs"])
             d["tuple_structs"] = list(d.get("tuple_structs", []))
+            d["fns_from"] = list(d.get("fns_from", []))
             by[d["area"]] = d; tgs.append(d)
             return
         t = by[d["area"]]
@@ -340,6 +408,7 @@ def load_targets():
         t["externals"].update(d.get("externals", {}))
         t["foreign_structs"].update(d.get("foreign_structs", {}))
         t["tuple_structs"] += [n for n in d.get("tuple_structs", []) if n not in t["tuple_structs"]]
+        t["fns_from"] += [n for n in d.get("fns_from", []) if n not in t["fns_from"]]
     for t in TARGETS: add(t, "TARGETS")
     for path in sorted(glob.glob(os.path.join(HERE, "fn_targets", "*.json"))):
         try:
@@ -355,10 +424,13 @@ FIXTURE_PROP = "FIX"    # functions of harness/src/props/fn_gen_fixture.rs: diff
 
 
 def unit_for(repo, tg):
-    return Unit(repo, tg["rel"], "VlsModel.Gen.Fn" + tg["area"], tg.get("consts", ()), tg.get("externals", {}),
-                tg.get("structs", ()), foreign_structs=tg.get("foreign_structs"), tuple_structs=tg.get("tuple_structs"),
-                views=tg.get("views"), error_ctors=tg.get("error_ctors"), compact_guards=bool(tg.get("compact_guards")), any_order=bool(tg.get("any_order")),
-                rewrite=make_rewriter(tg["rel"], tg["normalise"]) if tg.get("normalise") else None)
+    u = Unit(repo, tg["rel"], "VlsModel.Gen.Fn" + tg["area"], tg.get("consts", ()), tg.get("externals", {}),
+             tg.get("structs", ()), foreign_structs=tg.get("foreign_structs"), tuple_structs=tg.get("tuple_structs"),
+             fn_files=tg.get("fns_from", ()),
+             views=tg.get("views"), error_ctors=tg.get("error_ctors"), compact_guards=bool(tg.get("compact_guards")), any_order=bool(tg.get("any_order")),
+             rewrite=make_rewriter(tg["rel"], tg["normalise"]) if tg.get("normalise") else None)
+    u.log_macros = tuple(tg.get("log_macros", ()))     # declared logging-only macros of the file
+    return u
 
 
 def census(repo, tgs=None, units=None):
@@ -520,7 +592,7 @@ class Codec:
         if k == "bool": return "encBool"
         if k == "str": return "id"
         if k == "unit": return "encUnit"
-        if k == "opaque": return "toString"
+        if k == "opaque": return "(toString : Nat → String)"   # pins an opaque type that only occurs in the result
         if k == "opt": return "(encOpt %s)" % self.enc(t[1])
         if k == "vec": return "(encList %s)" % self.enc(t[1])
         if k in ("map", "umap") and t[1][0] == "opaque": return "(encOmap %s)" % self.enc(t[2])   # printed sorted by key
@@ -535,21 +607,25 @@ class Codec:
         raise RsError("no encoder for %r" % (t,))
 
 
-def dispatch_for(unit, area, fns, arms, defs, errall=()):
+def dispatch_for(unit, area, fns, arms, defs, errall=(), filt=()):
     """adds the `call_…` definitions of the translated functions of one unit"""
     cd = Codec(unit, area)
     calls = []
     for f in fns:
         key = "%s.%s" % (area, f.lean_name)
+        const_filter = f.lean_name in filt and [n for n, _ in f.exts] == ["policy_filter_err"]
         extargs = ""
         if f.exts and (f.impl, f.name) in errall and [n for n, _ in f.exts] == ["policy_filter_err"]:
             extargs = "(fun _ => true) "
-        elif f.exts:
+        elif f.exts and not const_filter:
             arms.append('  | "%s" :: _ => "nodriver"' % key)
             continue
         ident = "call_%s_%s" % (area, f.lean_name.replace(".", "_").replace("«", "").replace("»", ""))
         L = ["def %s (ts : List String) : Option String := do" % ident]
         names = []
+        if const_filter:
+            L.append("  let (pf, ts) ← decBool ts")
+            names.append("(fun _ => pf)")
         for i, (pn, pt) in enumerate(f.params):
             L.append("  let (a%d, ts) ← %s ts" % (i, cd.dec(pt)))
             names.append("a%d" % i)
@@ -612,8 +688,9 @@ def extract(repo):
                 snippets.append("// %s:%d\n%s\n" % (tg["rel"], f.line, txt))
         outputs["Fn%s.lean" % tg["area"]] = u.emit()
         imports.append("import VlsModel.Gen.Fn%s" % tg["area"])
+        filt = set((t[0] + "." if t[0] else "") + t[1] for t in tg["fns"] if len(t) > 4 and t[4] == "filter")
         dispatch_for(u, tg["area"], [u.fns[k] for k in u.order], arms, ddefs,
-                     errall={(t[0] or None, t[1]) for t in tg["fns"] if len(t) > 4 and t[4] == "errall"})
+                     errall={(t[0] or None, t[1]) for t in tg["fns"] if len(t) > 4 and t[4] == "errall"}, filt=filt)
     outputs["FnDispatch.lean"] = "\n".join(
         ["import VlsModel.Drv.FnCodec"] + imports +
         ["/-! Dispatch table of the driver model `fngen`: `<Area>.<function> <args…>` -> outcome of the generated",
